@@ -59,6 +59,12 @@ CHECKS = {
         "is_valid returns a bool on every path; constructor, validate and is_valid accept the same language under every valuation; each raised class is checked against the language of texts that have that defect.",
    note="National algorithms under validate_bban are opaque here and decided per country in C06. Message texts are not checked.",
    design="3/C05"),
+ "C16": dict(
+   technique="protocol conformance on the class table (method sets, __new__ arity vs modelled copy/pickle protocol) + evaluation of the comparison methods and of __deepcopy__ through the abstract evaluator",
+   text="__eq__/__hash__/__lt__ are shown to be defined together and to equal the compact strings' comparison on a family of concrete pairs for all three classes; every __new__'s arity is checked against what "
+        "object.__reduce_ex__/str.__getnewargs__ supply (found BBAN); __deepcopy__ is evaluated symbolically for each class on objects built with validation off (found the re-validation and the BBAN arity error) and must restore class, text and attributes.",
+   note="The copy/pickle protocol is modelled, not executed. Comparison with foreign types follows str (library model).",
+   design="3/C16"),
 }
 NA_REASON = "check not built yet (work in progress; see DESIGN.md section 3 for the plan)"
 
